@@ -83,6 +83,8 @@ REQUIRED_BRANCHES = ['perfile', 'cube', 'conv_memmap_on', 'conv_memmap_off', 'fi
                      'cube_val_unc_units_differ', 'sed_flux_err_units_differ',
                      'fitters_alive_together', 'second_memmap_fitter_other_package', 'convolved_gz', 'parameters_gz',
                      'remove_resolved_on', 'remove_resolved_changes_fit', 'reconvolve_default_refused', 'reconvolve_overwrite_true',
+                     'filter_at_grid_end', 'filter_edge_short_over', 'filter_edge_short_reach', 'filter_edge_long_over',
+                     'filter_edge_long_reach', 'filter_edge_both', 'distance_range_exact_multiple_of_step',
                      'table_names_S', 'table_names_U', 'table_name_col_first', 'table_name_col_middle', 'table_name_col_last',
                      'table_col_dtype_f8', 'table_col_dtype_f4', 'table_col_dtype_i4', 'table_col_dtype_i8',
                      'cube_names_str', 'cube_names_bytes', 'cube_names_padded', 'fit_aperture_dependent', 'fit_aperture_independent', 'multi_aperture_fit_aperture_independent',
@@ -223,6 +225,21 @@ def gen_case(rng, n=None, table_perm=None, directed=None):
     wav = sorted({nice(rng, 0.08, 900., 4) for _ in range(nw)} | {0.05, 1500.})
     nf = directed.get('nf') or rng.choice([2, 3])
     filters = gen_filters(rng, nf, wav[1] if len(wav) > 4 else wav[0] * 1.1, wav[-2] if len(wav) > 4 else wav[-1] / 1.1)
+    # band-passes that reach or overhang an end of the SED's spectral grid (their re-binned response is non-zero in the
+    # first / last bin; the part outside the grid is lost, identically in both formats)
+    edge = directed.get('edge', rng.choice([None, None, 'short_over', 'short_reach', 'long_over', 'long_reach', 'both']))
+    if edge in ('short_over', 'short_reach', 'both'):
+        ws = ([0.6 * wav[0]] if edge != 'short_reach' else []) + [wav[0], float('%.5g' % (0.5 * (wav[0] + wav[1]))), wav[1], float('%.5g' % (1.3 * wav[1]))]
+        filters[0] = dict(filters[0], wav=ws, resp=[nice(rng, 0.2, 1., 2) for _ in ws], cw=float('%.4g' % max(0.06, wav[1])), inside=False)
+    if edge in ('long_over', 'long_reach', 'both'):
+        ws = [float('%.5g' % (0.8 * wav[-2])), wav[-2], float('%.5g' % (0.5 * (wav[-2] + wav[-1]))), wav[-1]] + ([1.4 * wav[-1]] if edge != 'long_reach' else [])
+        filters[-1] = dict(filters[-1], wav=ws, resp=[nice(rng, 0.2, 1., 2) for _ in ws], cw=float('%.4g' % min(1400., wav[-2])), inside=False)
+    # distance ranges whose log width is an exact multiple of the step of the distance grid (in floating point)
+    drange, logd_step = [1., 2.], 0.02
+    if directed.get('exact_grid', rng.random() < 0.3):
+        drange, logd_step = rng.choice([([1., 10.], 0.02), ([1., 10.], 0.05), ([1., 10.], 0.25), ([1., 100.], 0.1),
+                                        ([1., 100.], 0.25), ([0.1, 10.], 0.1), ([0.1, 10.], 0.05)])
+        drange = list(drange)
     flat = directed.get('flat', rng.random() < 0.5)
     g = [1.] * len(wav) if flat else [nice(rng, 0.1, 10., 3) for _ in wav]
     h = [1.] * len(wav) if flat else [nice(rng, 0.1, 10., 3) for _ in wav]
@@ -266,7 +283,7 @@ def gen_case(rng, n=None, table_perm=None, directed=None):
                 sed_store=directed.get('sed_store', rng.choice(['nu_inc', 'nu_dec'])),
                 cube_store=directed.get('cube_store', rng.choice(['nu_inc', 'nu_dec'])),
                 g=g, h=h, c=c, e=e, tilt=tilt, etilt=etilt, general=general, filters=filters, src=src, av=[0., 40.],
-                stage=stage, reconv=reconv, table_repr=trepr, cube_names_repr=rng.choice(['str', 'bytes', 'padded']),
+                edge=edge, drange=drange, logd_step=logd_step, stage=stage, reconv=reconv, table_repr=trepr, cube_names_repr=rng.choice(['str', 'bytes', 'padded']),
                 resolved=resolved, gz_conv=directed.get('gz_conv', rng.choice(['none', 'none', 'some', 'all'])),
                 gz_par=gz_par, apdep=ap_dep, second_pkg=directed.get('second_pkg', rng.random() < 0.5),
                 fit_order=rng.sample([0, 1, 2, 3], 4), flat=flat, unit_sed=unit_sed, unit_cube=unit_cube, unit_sed_err=unit_sed_err, unit_cube_unc=unit_cube_unc,
@@ -274,14 +291,14 @@ def gen_case(rng, n=None, table_perm=None, directed=None):
 
 
 DIRECTED = [
-    dict(n=6, nap=4, nf=3, flat=True, resolved=True, reconv=True, sed_store='nu_inc', cube_store='nu_dec', pad=True, gz_conv='none', gz_par=False, second_pkg=True),
-    dict(n=5, nap=3, nf=2, flat=False, general=True, resolved=True, reconv=True, sed_store='nu_dec', cube_store='nu_inc', pad=False, gz_conv='some', gz_par=False),
+    dict(n=6, nap=4, nf=3, flat=True, resolved=True, reconv=True, edge='short_over', exact_grid=True, sed_store='nu_inc', cube_store='nu_dec', pad=True, gz_conv='none', gz_par=False, second_pkg=True),
+    dict(n=5, nap=3, nf=2, flat=False, general=True, resolved=True, reconv=True, edge='both', exact_grid=True, sed_store='nu_dec', cube_store='nu_inc', pad=False, gz_conv='some', gz_par=False),
     dict(n=1, nap=1, nf=2, flat=True, gz_conv='all', gz_par=True, sed_store='nu_inc', cube_store='nu_dec', pad=True, stage='write_parameters', no_aps=True, unit_sed='Jy', unit_cube='mJy', unit_sed_err='mJy', unit_cube_unc='Jy', cube_perm=True),
     dict(n=8, nap=5, nf=3, flat=False, general=True, stage='write_parameters', second_pkg=True, resolved=True, gz_conv='some', gz_par=True, sed_store='nu_dec', cube_store='nu_inc', pad=True, name30=True, subdir=True),
-    dict(n=3, nap=1, nf=3, flat=True, sed_store='nu_dec', cube_store='nu_dec', pad=False, name30=True, stage='write_parameter_ranges', no_aps=True, unit_sed='erg/cm2/s', unit_cube='Jy', unit_sed_err='Jy', unit_cube_unc='mJy', cube_perm=True),
+    dict(n=3, nap=1, nf=3, flat=True, edge='long_reach', sed_store='nu_dec', cube_store='nu_dec', pad=False, name30=True, stage='write_parameter_ranges', no_aps=True, unit_sed='erg/cm2/s', unit_cube='Jy', unit_sed_err='Jy', unit_cube_unc='mJy', cube_perm=True),
     dict(n=4, nap=2, nf=2, flat=False, general=False, resolved=True, gz_conv='all', gz_par=True, sed_store='nu_inc', cube_store='nu_inc', pad=True, stage='extract_parameters', subdir=True, unit_sed='erg/cm2/s', unit_cube='mJy', unit_sed_err='erg/cm2/s', unit_cube_unc='mJy', cube_perm=True),
     dict(n=5, nap=3, nf=2, flat=True, sed_store='nu_dec', cube_store='nu_inc', pad=True, subdir=True, apdep=False),
-    dict(n=2, nap=4, nf=3, flat=False, general=True, sed_store='nu_inc', cube_store='nu_dec', pad=False, apdep=False, second_pkg=True),
+    dict(n=2, nap=4, nf=3, flat=False, general=True, edge='short_reach', exact_grid=True, sed_store='nu_inc', cube_store='nu_dec', pad=False, apdep=False, second_pkg=True),
     dict(n=5, nap=1, nf=2, flat=False, general=True, sed_store='nu_dec', cube_store='nu_dec', pad=True, no_aps=False, unit_sed='Jy', unit_cube='Jy', unit_sed_err='erg/cm2/s', unit_cube_unc='mJy', cube_perm=True),
     dict(n=6, nap=1, nf=3, flat=False, general=True, sed_store='nu_inc', cube_store='nu_inc', pad=True, no_aps=True, unit_sed='mJy', unit_cube='Jy', cube_perm=False),
 ]
@@ -500,10 +517,10 @@ def build_perfile(case, d1):
     if plain:
         pk.write_sed_package(d1, names, case['wav'], flux, err, apertures_au=case['aps'],
                              table_order=case['table'], params=params, file_names=case['stems'],
-                             unit=astropy_unit(unit), aperture_dependent=apdep(case))
+                             unit=astropy_unit(unit), aperture_dependent=apdep(case), logd_step=case.get('logd_step', 0.02))
         return
     os.makedirs(os.path.join(d1, 'seds'), exist_ok=True)
-    pk.write_conf(d1, aperture_dependent=apdep(case), version=1)
+    pk.write_conf(d1, aperture_dependent=apdep(case), version=1, logd_step=case.get('logd_step', 0.02))
     wav = np.array(case['wav'], dtype=float)
     for i, nme in enumerate(names):
         path = os.path.join(d1, 'seds', case['stems'][nme] + '.fits')
@@ -530,10 +547,11 @@ def build_cube(case, d2):
         wav, val, unc = wav[::-1], val[:, :, ::-1], unc[:, :, ::-1]
     if unit_u == unit:
         pk.write_cube_package(d2, cube_names_repr(case), wav, val, unc, apertures_au=case['aps'],
-                              params={'PAR1': [float(i) for i in idx]}, unit=astropy_unit(unit), aperture_dependent=apdep(case))
+                              params={'PAR1': [float(i) for i in idx]}, unit=astropy_unit(unit), aperture_dependent=apdep(case),
+                              logd_step=case.get('logd_step', 0.02))
     else:
         # values and uncertainties in different units: the cube keeps (and stores) the two units separately
-        pk.write_conf(d2, aperture_dependent=apdep(case), version=2)
+        pk.write_conf(d2, aperture_dependent=apdep(case), version=2, logd_step=case.get('logd_step', 0.02))
         c = pk.make_cube(cube_names_repr(case), wav, val, None, case['aps'], unit=astropy_unit(unit))
         c.unc = np.array(unc, dtype=float) * astropy_unit(unit_u)
         c.write(os.path.join(d2, 'flux.fits'), overwrite=True)
@@ -676,7 +694,7 @@ def check_file(case, tab, via, expect_names, fname, filt, what, scale=1.):
                      % (what, fname, tab['wav'], filt['cw'], filt.get('cw_unit', 'um')))
     expF, expE = expected_rows(case, filt)
     expF, expE = expF * scale, expE * scale
-    if case['flat']:
+    if case['flat'] and filt.get('inside', True):
         # flat F_nu through a normalised filter inside the SED range: exactly the constant (C06's flat-spectrum law);
         # this also pins the harness's own integrator
         if not all(rel(expF[m][a], case['c'][m][a]) < 1e-11 for m in range(n) for a in range(nap)):
@@ -708,8 +726,9 @@ def build_fitter(case, d, fnames, use_memmap, remove_resolved=None):
     ext = pk.make_extinction(EXT_W, EXT_CHI)
     rr = use_resolved(case) if remove_resolved is None else remove_resolved
     # requested apertures (arcsec x distance): 1.05 .. 2.1 (resolved cases) or 1.3 .. 2.6 times the smallest tabulated one
-    arcsec = [(case['aps'][0] if case['aps'] else 1000.) * (1.05 if use_resolved(case) else 1.3) / 1000.] * nf
-    return pk.make_fitter(d, fnames, arcsec, ext, case['av'], distance_range_kpc=(1., 2.), use_memmap=use_memmap,
+    dr = case.get('drange') or [1., 2.]
+    arcsec = [(case['aps'][0] if case['aps'] else 1000.) * (1.05 if use_resolved(case) else 1.3) / (1000. * dr[0])] * nf
+    return pk.make_fitter(d, fnames, arcsec, ext, case['av'], distance_range_kpc=tuple(dr), use_memmap=use_memmap,
                           remove_resolved=rr)
 
 
@@ -844,6 +863,8 @@ def impl_side(case, d):
         br.add('sed_flux_err_units_differ')
     if case['aps'] is None:
         br.add('no_apertures')
+    if case.get('edge'):
+        br |= {'filter_at_grid_end', 'filter_edge_' + case['edge']}
     br |= {'cw_unit_' + f.get('cw_unit', 'um') for f in case['filters']}
     if case.get('general'):
         br |= {'general_sed', 'err_not_proportional'}
@@ -940,6 +961,11 @@ def impl_side(case, d):
     sm = case['src']['model']
     row = v1[fnames[0]]['names'].index(names[sm]) if names[sm] in v1[fnames[0]]['names'] else 0
     src_flux = [float(v1[fn]['flux'][row][0]) * fac for fn, fac in zip(fnames, case['src']['fac'])]
+    dr_ = case.get('drange') or [1., 2.]
+    if dr_ != [1., 2.] and apdep(case):
+        # a source near the (logarithmic) middle of the distance range, so that the best distance is an interior grid point
+        src_flux = [f / (dr_[0] * dr_[1]) for f in src_flux]
+        br.add('distance_range_exact_multiple_of_step')
     try:
         gzip_package_files(case, [d1, d2], fnames, br)
         # all fitters of the case are built first and stay alive together; the fits follow in a shuffled order
